@@ -28,3 +28,27 @@ check(
     "DESIGN.md section 3 C20",
     "unitlab",
 )
+
+ENGINES[0]["serves_properties"].append("C17")
+ENGINES.append(
+    {
+        "name": "atheris-geqdsk",
+        "path": "vf/fuzz_geqdsk.py",
+        "serves_properties": ["C17"],
+        "kind_free_text": "coverage-guided fuzz target (libFuzzer via atheris) with the round-trip oracle inside the target; thorough tier only",
+    }
+)
+check(
+    "C17",
+    "exploration",
+    "Hypothesis-generated geqdsk dictionaries (all sizes incl. 1xN, not divisible by 5, >=1000; full two-digit "
+    "exponent range; optional entries; header variants) are written by hypnotoad and by an independent strict "
+    "fixed-width reference writer (abutting numbers, sign/exponent styles, other chunkings), read back by hypnotoad "
+    "and compared to ten significant digits with exact decimal arithmetic; read_geqdsk / TORPEX gfile mapping is "
+    "checked at every node of generated files; thorough adds two atheris campaigns with the oracle in the target.",
+    "Trusted base: python decimal, the harness' reference writer (format (6a8,3i4)/(5e16.9)/(2i5)). Values restricted "
+    "to two-digit exponents as the property states.",
+    "Hypothesis PBT round-trip + differential against reference writer; atheris coverage-guided fuzzing",
+    "DESIGN.md section 3 C17",
+    "unitlab",
+)
